@@ -137,10 +137,10 @@ def scenario(rng):
     return sp, nmax
 
 
-def run_real(sp, nmax, thetas, active):
+def run_real(sp, nmax, thetas, active, **options):
     from smrt import make_model, sensor_list
     from smrt.core.error import SMRTError
-    m = make_model("iba", "dort", rtsolver_options=dict(n_max_stream=nmax))
+    m = make_model("iba", "dort", rtsolver_options=dict(n_max_stream=nmax, **options))
     sensor = sensor_list.active(13e9, thetas) if active else sensor_list.passive(37e9, thetas)
     try:
         return m.run(sensor, sp)
@@ -291,13 +291,23 @@ def oracle(ctx, hints, effort):
             findings.setdefault(key, Finding(key, "an angle beyond the last stream returned a value instead of SMRTError",
                                              {"sp": spa, "nmax": nmax, "thetas": [min(89.9, last + 0.5)] + thetas[:1], "active": active,
                                               "beyond": True}, np.asarray(res.data.values).tolist(), "SMRTError"))
+        # ... also when numerical failures are to be reported as NaN (error_handling='nan'): a request outside the computed directions is
+        # not a numerical failure
+        evals += 1
+        res = run_real(make_snowpack(**spa), nmax, [min(89.9, last + 0.5)] + thetas[:1], active, error_handling="nan")
+        if not isinstance(res, str):
+            key = ("active:" if active else "passive:") + "extrapolated:nan-mode"
+            findings.setdefault(key, Finding(key, "with error_handling='nan' an angle beyond the last stream returned a result (NaN or a number) instead of "
+                                             "SMRTError", {"sp": spa, "nmax": nmax, "thetas": [min(89.9, last + 0.5)] + thetas[:1], "active": active,
+                                                           "beyond": True, "options": {"error_handling": "nan"}},
+                                             np.asarray(res.data.values).tolist(), "SMRTError"))
     return list(findings.values()), evals
 
 
 def replay(inp, rp=None):
     from smrt import make_snowpack
     if inp.get("beyond"):
-        res = run_real(make_snowpack(**inp["sp"]), inp["nmax"], inp["thetas"], inp["active"])
+        res = run_real(make_snowpack(**inp["sp"]), inp["nmax"], inp["thetas"], inp["active"], **inp.get("options", {}))
         return None if isinstance(res, str) else Finding("?", "extrapolated", inp, "value", "SMRTError")
     if inp.get("kind") == "array":
         last, _ = last_stream_angle(inp["sp"], inp["nmax"], inp["active"])
